@@ -22,6 +22,81 @@ let zs (s : string) : z = z_of_int (int_of_string s)
 let fmethod_of_int n =
   match n with 0 -> MFixed FNone | 1 -> MFixed FSub | 2 -> MFixed FUp | 3 -> MFixed FAvg | 4 -> MFixed FPaeth | _ -> MAdaptive
 
+
+(* ---------- L0 stream model: printing the observation exactly as harness/src/streamrun.rs does ---------- *)
+let zi = int_of_z
+let hash_bytes (l : z list) : int = List.fold_left (fun h b -> (h * 31 + zi b) mod 1_000_000_007) 7 l
+let fctl_str (f : fctl) : string =
+  Printf.sprintf "%d:%d:%d:%d:%d:%d:%d:%d:%d" (zi f.fc_seq) (zi f.fc_w) (zi f.fc_h) (zi f.fc_x) (zi f.fc_y) (zi f.fc_dn) (zi f.fc_dd) (zi f.fc_dispose) (zi f.fc_blend)
+let ints (l : z list) : string = String.concat ":" (List.map (fun v -> string_of_int (zi v)) l)
+let fmt_name (f : fmt_err) : string = match f with
+  | FCrcMismatch -> "CrcMismatch" | FInvalidSignature -> "InvalidSignature" | FMissingFctl -> "MissingFctl"
+  | FMissingImageData -> "MissingImageData" | FChunkBeforeIhdr -> "ChunkBeforeIhdr" | FAfterIdat -> "AfterIdat"
+  | FBeforePlte -> "BeforePlte" | FAfterPlte -> "AfterPlte" | FOutsidePlteIdat -> "OutsidePlteIdat"
+  | FDuplicateChunk -> "DuplicateChunk" | FApngOrder -> "ApngOrder" | FShortPalette -> "ShortPalette"
+  | FInvalidSbitChunkSize -> "InvalidSbitChunkSize" | FInvalidSbit -> "InvalidSbit" | FPaletteRequired -> "PaletteRequired"
+  | FInvalidColorBitDepth -> "InvalidColorBitDepth" | FColorWithBadTrns -> "ColorWithBadTrns" | FInvalidDimensions -> "InvalidDimensions"
+  | FInvalidBitDepth -> "InvalidBitDepth" | FInvalidColorType -> "InvalidColorType" | FInvalidDisposeOp -> "InvalidDisposeOp"
+  | FInvalidBlendOp -> "InvalidBlendOp" | FInvalidUnit -> "InvalidUnit" | FInvalidSrgbRenderingIntent -> "InvalidSrgbRenderingIntent"
+  | FUnknownCompressionMethod -> "UnknownCompressionMethod" | FUnknownFilterMethod -> "UnknownFilterMethod"
+  | FUnknownInterlaceMethod -> "UnknownInterlaceMethod" | FBadSubFrameBounds -> "BadSubFrameBounds"
+  | FCorruptFlateStream -> "CorruptFlateStream" | FNoMoreImageData -> "NoMoreImageData" | FBadTextEncoding -> "BadTextEncoding"
+  | FFdatShorterThanFourBytes -> "FdatShorterThanFourBytes" | FUnexpectedRestart -> "UnexpectedRestartOfDataChunkSequence"
+  | FChunkTooShort -> "ChunkTooShort"
+let derr_str (e : derr) : string = match e with
+  | EIoEof -> "Io:UnexpectedEof" | EFormat f -> "Format:" ^ fmt_name f
+  | EParamPolledAfterEnd -> "Param:PolledAfterEndOfImage" | EParamPolledAfterFatal -> "Param:PolledAfterFatalError"
+  | EParamBufferSize -> "Param:ImageBufferSize" | ELimits -> "Limits"
+let event_str (e : event) : string = match e with
+  | ENothing -> "N"
+  | EHeader (w, h, d, c, i) -> Printf.sprintf "H:%d:%d:%d:%d:%d" (zi w) (zi h) (zi d) (zi c) (if i then 1 else 0)
+  | EChunkBegin (l, t) -> Printf.sprintf "CB:%d:%d" (zi l) (zi t)
+  | EChunkComplete (c, t) -> Printf.sprintf "CC:%d:%d" (zi c) (zi t)
+  | EPixelDimensions (x, y, u) -> Printf.sprintf "PD:%d:%d:%d" (zi x) (zi y) (zi u)
+  | EAnimationControl (f, p) -> Printf.sprintf "AC:%d:%d" (zi f) (zi p)
+  | EFrameControl f -> "FC:" ^ fctl_str f
+  | EImageData -> "D" | EImageDataFlushed -> "F"
+  | EPartialChunk t -> Printf.sprintf "PC:%d" (zi t)
+  | EImageEnd -> "IE"
+let oev_str (o : oev) : string = match o with
+  | OEv e -> event_str e
+  | OData -> "D"
+  | OFlushed d -> Printf.sprintf "F:%d:%d" (List.length d) (hash_bytes d)
+let opt_hex (o : z list option) : string = match o with Some b -> hex b | None -> "none"
+let info_dump (i : info_t) : string =
+  let g k = anc_get k i.i_anc in
+  let b = Buffer.create 256 in
+  Buffer.add_string b (Printf.sprintf "%d,%d,%d,%d,%d" (zi i.i_width) (zi i.i_height) (zi i.i_depth) (zi i.i_color) (if i.i_interlaced then 1 else 0));
+  Buffer.add_string b ("|pal=" ^ opt_hex (g KPalette));
+  Buffer.add_string b ("|trns=" ^ opt_hex (g KTrns));
+  Buffer.add_string b ("|sbit=" ^ opt_hex (g KSbit));
+  let num name k = Buffer.add_string b ("|" ^ name ^ "=" ^ (match g k with Some l -> ints l | None -> "none")) in
+  num "phys" KPhys; num "gama" KGama; num "chrm" KChrm; num "srgb" KSrgb;
+  Buffer.add_string b ("|iccp=" ^ opt_hex (g KIccp));
+  num "cicp" KCicp; num "mdcv" KMdcv; num "clli" KClli;
+  Buffer.add_string b ("|exif=" ^ opt_hex (g KExif));
+  Buffer.add_string b ("|bkgd=" ^ opt_hex (g KBkgd));
+  Buffer.add_string b ("|fctl=" ^ (match i.i_fctl with Some f -> fctl_str f | None -> "none"));
+  Buffer.add_string b ("|actl=" ^ (match i.i_actl with Some (f, p) -> Printf.sprintf "%d:%d" (zi f) (zi p) | None -> "none"));
+  Buffer.add_string b "|text=";
+  let h0 l = if l = [] then "-" else hex l in
+  List.iter (fun t -> if zi t.t_kind = 0 then
+    Buffer.add_string b (Printf.sprintf "[0:%s:0:-:-:ok:%s]" (h0 t.t_keyword) (h0 t.t_payload))) i.i_text;
+  List.iter (fun t -> if zi t.t_kind = 1 then
+    Buffer.add_string b (Printf.sprintf "[1:%s:1:-:-:%s]" (h0 t.t_keyword)
+      (match inflate_checked t.t_payload with Some x -> "ok:" ^ h0 x | None -> "err"))) i.i_text;
+  List.iter (fun t -> if zi t.t_kind = 2 then
+    Buffer.add_string b (Printf.sprintf "[2:%s:%d:%s:%s:%s]" (h0 t.t_keyword) (if t.t_compressed then 1 else 0) (h0 t.t_lang) (h0 t.t_trans)
+      (if t.t_compressed then (match inflate_checked t.t_payload with Some x when utf8_valid x -> "ok:" ^ h0 x | _ -> "err") else "ok:" ^ h0 t.t_payload))) i.i_text;
+  Buffer.contents b
+let rend_str (r : rend) : string = match r with
+  | REof -> "EOF" | RImageEnd n -> Printf.sprintf "IEND:%d" (int_of_nat n)
+  | RErr e -> "ERR:" ^ derr_str e | RPanic n -> Printf.sprintf "PANIC site %d" (int_of_nat n) | RFuel -> "MODEL-OUT-OF-FUEL"
+let l0_text (((evs, e), info) : (oev list * rend) * info_t option) : string =
+  Printf.sprintf "%s END=%s INFO=%s" (let evs = List.filter (fun e -> e <> OData) evs in if evs = [] then "-" else String.concat ";" (List.map oev_str evs)) (rend_str e)
+    (match info with Some i -> info_dump i | None -> "none")
+let sizes_of (s : string) : z list = if s = "-" then [] else List.map zs (String.split_on_char ',' s)
+
 let run_case (t : string list) : string =
   match t with
   | ["paeth"; k; a; b; c] ->
@@ -47,6 +122,8 @@ let run_case (t : string list) : string =
     (match expand_pass_exec (unhex dest) (zs stride) (zs p) (zs line) (zs width) (zs bits) (unhex row) with
      | Some d -> hex d
      | None -> "PANIC invalid pass")
+  | ["l0"; ob; lim; sizes; bytes] -> l0_text (l0_run (zs ob) (zs lim) (sizes_of sizes) (unhex bytes))
+  | ["l0reset"; ob; lim; first; second] -> l0_text (l0_run_after_reset (zs ob) (zs lim) (unhex first) (unhex second))
   | _ -> "unknown-case"
 
 let () =
